@@ -24,6 +24,8 @@ pub fn opts() -> GenOpts {
     o.cmd_depth = 2;
     o.max_named = 6;
     o.twins = true;
+    o.env = true;
+    o.env_only = false;
     o.custom_help = true;
     o.pure_fail = true;
     o
@@ -41,11 +43,20 @@ struct Screen {
     group_lines: Vec<String>,
 }
 
+thread_local! {
+    /// the brief rendering (what a single `--help` prints) of the last screen
+    static BRIEF: std::cell::RefCell<String> = std::cell::RefCell::new(String::new());
+}
+
 fn help_screen(parser: &bpaf::OptionParser<V>, help_item: &str) -> Result<String, Outcome> {
     let argv = vec![help_item.as_bytes().to_vec()];
     let os = crate::outcome::to_os(&argv);
     let (res, _) = guarded(RENDER_FUEL, || match parser.run_inner(Args::from(os.as_slice())) {
-        Err(ParseFailure::Stdout(doc, _)) => Ok(format!("{:60000}", doc)),
+        Err(ParseFailure::Stdout(doc, _)) => {
+            let brief = doc.monochrome(false);
+            BRIEF.with(|b| *b.borrow_mut() = brief);
+            Ok(format!("{:60000}", doc))
+        }
         other => Err(crate::outcome::normalise(other).0),
     });
     match res {
@@ -209,6 +220,33 @@ pub fn run_case(case: &mut Case) {
             .or_else(|| hn.shorts.first().map(|s| format!("-{}", s)))
             .unwrap_or_else(|| "--help".to_string());
         let argv = vec![help_item.as_bytes().to_vec()];
+        // in half of the screens the declared variables of the level's arguments are set, to a
+        // value with an empty line in it (a PEM bundle, say): the help shows `[env:VAR = ..]`
+        // and must list everything else all the same
+        struct Unset(Vec<String>);
+        impl Drop for Unset {
+            fn drop(&mut self) {
+                for v in &self.0 {
+                    std::env::remove_var(v);
+                }
+            }
+        }
+        let mut set_vars: Vec<String> = Vec::new();
+        if rng.chance(1, 2) {
+            let mut items = Vec::new();
+            level.root.level_items(&mut items);
+            for it in items.iter().filter(|i| i.is_arg()) {
+                for v in &it.names.envs {
+                    std::env::set_var(v, "first line\n\nthird line");
+                    set_vars.push(v.clone());
+                }
+            }
+            if !set_vars.is_empty() {
+                case.rep.count("help-screens-with-variables-set");
+            }
+        }
+        // (stay set for every screen of this level, unset when the iteration ends)
+        let unset_guard = Unset(set_vars);
         let text = match help_screen(&parser, &help_item) {
             Ok(t) => t,
             Err(o) => {
@@ -296,6 +334,35 @@ pub fn run_case(case: &mut Case) {
                             detail(format!("no term line {:?} for visible item {}", term, it.id)),
                         );
                     }
+                }
+            }
+        }
+        // (a') the brief form (single `--help`, wrapped at the default width) lists the same
+        // items: every visible name and the help flag occur in it
+        {
+            let brief = BRIEF.with(|b| b.borrow().clone());
+            let mut wanted: Vec<String> = Vec::new();
+            for it in view.items.iter().filter(|i| !i.hidden && !i.is_pos && !i.in_adjacent) {
+                if let Some(l) = &it.long {
+                    wanted.push(format!("--{}", l));
+                } else if let Some(c) = it.short {
+                    wanted.push(format!("-{}", c));
+                }
+            }
+            if let Some(l) = hn.longs.first() {
+                wanted.push(format!("--{}", l));
+            }
+            for w in wanted {
+                case.rep.count("brief-names-checked");
+                if !mentions_name(&brief, &w) {
+                    case.rep.violation(
+                        "visible-item-missing:brief-help",
+                        "completeness",
+                        case.index,
+                        detail(format!("{:?} does not occur in the brief help", w))
+                            .set("brief_help", crate::outcome::clip(&brief)),
+                    );
+                    break;
                 }
             }
         }
@@ -521,6 +588,8 @@ pub fn run_case(case: &mut Case) {
             }
         }
 
+        // (the acceptance runs below are about the command line alone)
+        drop(unset_guard);
         // (g) every shown name is accepted by the parser of that level
         for it in view.items.iter().filter(|i| !i.hidden && !i.is_pos) {
             let mut tests: Vec<Names> = Vec::new();
